@@ -46,7 +46,7 @@ def boundary_values(t, exhaustive):
         vs = {lo, lo + 1, -1, 0, 1, 2, hi // 2, hi // 2 + 1, hi - 1, hi, 127, 128, 255, 256, 65535, 65536}
         return sorted(v for v in vs if lo <= v <= hi)
     if k == "R":
-        return [0.0, -0.0, 1.0, -1.5, 1e-30, 3.0e38 if n == 4 else 1.7e308, 123456.789, float("inf")]
+        return [0.0, -0.0, 1.0, -1.5, 1e-30, 3.0e38 if n == 4 else 1.7e308, 123456.789, float("inf"), 1, -2, 6378137]  # ints are acceptable for float keys
     if k == "X":
         return [bytes(n), b"\xff" * n, bytes(range(1, n + 1)), b"\x80" + bytes(n - 1)]
     if k == "C":
